@@ -18,28 +18,26 @@ theorem decodeMessage_v0_steps {ext : Ext} {recSet : Bytes → Gen} {data : Byte
     {key value : Option Bytes}
     (h1 : relativeUnpack ['>', 'I', 'B', 'B'] data 0 = .ok ([crc, 0, att], c1))
     (hcrc : crc = ((ext.crc (pySlice data crcFrom data.length) &&& crcMask : Nat) : Int))
-    (h2 : readIntString data c1 = .ok (key, c2)) (h3 : readIntString data c2 = .ok (value, c3))
-    (hcodec : att.toNat &&& attributeCodecMask = codecNone.toNat) :
+    (h2 : readIntString data c1 = .ok (key, c2)) (h3 : readIntString data c2 = .ok (value, c3)) :
     decodeMessageWith ext recSet (some data) off =
-      ([⟨off, { magic := 0, attributes := att, key := key, value := value }⟩], none) := by
+      decodeCodec ext recSet att value ([⟨off, { magic := 0, attributes := att, key := key, value := value }⟩], none) id := by
   unfold decodeMessageWith
   simp only [fmt_decode_message_0]
   rw [h1]
   simp only
   rw [if_neg (by rw [hcrc]; simp)]
   simp only [if_true]
-  rw [h2]; simp only; rw [h3]; simp only
-  exact decodeCodec_plain ext recSet att value _ _ hcodec
+  rw [h2]; simp only; rw [h3]
 
 theorem decodeMessage_v1_steps {ext : Ext} {recSet : Bytes → Gen} {data : Bytes} {off crc att ts c1 c2 c3 c4 : Int}
     {key value : Option Bytes}
     (h1 : relativeUnpack ['>', 'I', 'B', 'B'] data 0 = .ok ([crc, 1, att], c1))
     (hcrc : crc = ((ext.crc (pySlice data crcFrom data.length) &&& crcMask : Nat) : Int))
     (ht : relativeUnpack ['>', 'q'] data c1 = .ok ([ts], c2))
-    (h2 : readIntString data c2 = .ok (key, c3)) (h3 : readIntString data c3 = .ok (value, c4))
-    (hcodec : att.toNat &&& attributeCodecMask = codecNone.toNat) :
+    (h2 : readIntString data c2 = .ok (key, c3)) (h3 : readIntString data c3 = .ok (value, c4)) :
     decodeMessageWith ext recSet (some data) off =
-      ([⟨off, { magic := 1, attributes := att, key := key, value := value, timestamp := some ts }⟩], none) := by
+      decodeCodec ext recSet att value
+        ([⟨off, { magic := 1, attributes := att, key := key, value := value, timestamp := some ts }⟩], none) (v1Inner off) := by
   unfold decodeMessageWith
   simp only [fmt_decode_message_0, fmt_decode_message_v1_0]
   rw [h1]
@@ -47,8 +45,7 @@ theorem decodeMessage_v1_steps {ext : Ext} {recSet : Bytes → Gen} {data : Byte
   rw [if_neg (by rw [hcrc]; simp)]
   have h10 : ¬ ((1 : Int) = 0) := by decide
   simp only [h10, if_false, if_true]
-  rw [ht]; simp only; rw [h2]; simp only; rw [h3]; simp only
-  exact decodeCodec_plain ext recSet att value _ _ hcodec
+  rw [ht]; simp only; rw [h2]; simp only; rw [h3]
 
 /-! ## the layout of the grammar's message -/
 
@@ -117,20 +114,18 @@ theorem crcMask_mod (n : Nat) : n &&& crcMask = n % 256 ^ 4 := by
   have : crcMask = 2 ^ 32 - 1 := by decide
   rw [this, Nat.and_two_pow_sub_one_eq_mod]
 
-/-- one plain message of the grammar, decoded by `_decode_message` -/
-theorem message_roundtrip (ext : Ext) (recSet : Bytes → Gen) (off : Int) (m : Spec.Msg)
-    (hv : (Spec.message ext.crc).valid m = true) (hplain : m.attributes % 4 = 0) :
-    decodeMessageWith ext recSet (some ((Spec.message ext.crc).enc m)) off = ([⟨off, toMessage m⟩], none) := by
+/-- one message of the grammar, decoded by `_decode_message`: header, checksum, key and value are read
+    back; what is yielded is then decided by the codec bits (`decodeCodec`) -/
+theorem message_decode (ext : Ext) (recSet : Bytes → Gen) (off : Int) (m : Spec.Msg)
+    (hv : (Spec.message ext.crc).valid m = true) :
+    decodeMessageWith ext recSet (some ((Spec.message ext.crc).enc m)) off =
+      decodeCodec ext recSet (m.attributes : Int) m.value ([⟨off, toMessage m⟩], none)
+        (if m.magic = 1 then v1Inner off else id) := by
   obtain ⟨magic, attrs, ts, key, value⟩ := m
   rw [message_valid, msgBody_valid] at hv
   simp only [Bool.true_and] at hv
   have hv := Bool.and_eq_true_iff.mp hv
-  simp only at hv hplain
-  have hcodec : ((attrs : Int)).toNat &&& attributeCodecMask = codecNone.toNat := by
-    have h3 : attributeCodecMask = 2 ^ 2 - 1 := by decide
-    have h4 : codecNone.toNat = 0 := by decide
-    rw [Int.toNat_natCast, h3, Nat.and_two_pow_sub_one_eq_mod, h4]
-    simpa using hplain
+  simp only at hv ⊢
   have hC : ext.crc (Spec.msgBody.enc ⟨magic, attrs, ts, key, value⟩) % 256 ^ 4 < 4294967296 := Nat.mod_lt _ (by decide)
   rw [message_enc]
   generalize hbody : Spec.msgBody.enc ⟨magic, attrs, ts, key, value⟩ = body at hC ⊢
@@ -170,7 +165,6 @@ theorem message_roundtrip (ext : Ext) (recSet : Bytes → Gen) (off : Int) (m : 
         (by rw [hdata]; simp only [List.append_assoc]) hr3.1)
       (ris_nullable_at (data := data) (pre := packedBody ['I', 'B', 'B'] [(C : Int), 0, (attrs : Int)] ++ nullableBytes.enc key) (rest := [])
         (by rw [hdata]; simp only [List.append_assoc, List.append_nil]) hr3.2)
-      hcodec
     rw [r]
     rfl
   · by_cases h1 : magic = 1
@@ -215,10 +209,126 @@ theorem message_roundtrip (ext : Ext) (recSet : Bytes → Gen) (off : Int) (m : 
           (ris_nullable_at (data := data)
             (pre := packedBody ['I', 'B', 'B'] [(C : Int), 1, (attrs : Int)] ++ packedBody ['q'] [t] ++ nullableBytes.enc key) (rest := [])
             (by rw [hdata]; simp only [List.append_assoc, List.append_nil]) hr4.2)
-          hcodec
         rw [r]
         rfl
     · rw [msgRest_other_valid magic h0 h1] at hv
       simp at hv
+
+/-- one plain message of the grammar, decoded by `_decode_message` -/
+theorem message_roundtrip (ext : Ext) (recSet : Bytes → Gen) (off : Int) (m : Spec.Msg)
+    (hv : (Spec.message ext.crc).valid m = true) (hplain : m.attributes % 4 = 0) :
+    decodeMessageWith ext recSet (some ((Spec.message ext.crc).enc m)) off = ([⟨off, toMessage m⟩], none) := by
+  rw [message_decode ext recSet off m hv]
+  apply decodeCodec_plain
+  have h3 : attributeCodecMask = 2 ^ 2 - 1 := by decide
+  have h4 : codecNone.toNat = 0 := by decide
+  rw [Int.toNat_natCast, h3, Nat.and_two_pow_sub_one_eq_mod, h4]
+  simpa using hplain
+
+/-! ## the loop of `_decode_message_set_iter` -/
+
+theorem setLoop_end (ext : Ext) (recSet : Bytes → Gen) (data : Bytes) (n : Nat) (rm : Bool) :
+    setLoopWith ext recSet data n (data.length : Int) rm = ([], none) := by
+  have h : ¬ ((data.length : Int) < (data.length : Int)) := by omega
+  cases n with
+  | zero => simp only [setLoopWith, h, if_false]
+  | succ n => simp only [setLoopWith, h, not_false_eq_true, if_true]
+
+theorem setLoop_step {ext : Ext} {recSet : Bytes → Gen} {data : Bytes} {n : Nat} {cur c1 c2 off : Int}
+    {msg : Option Bytes} {om : OffsetAndMessage} {rm : Bool}
+    (hlt : cur < (data.length : Int))
+    (h1 : relativeUnpack ['>', 'q'] data cur = .ok ([off], c1))
+    (h2 : readIntString data c1 = .ok (msg, c2))
+    (h3 : decodeMessageWith ext recSet msg off = ([om], none)) :
+    setLoopWith ext recSet data (n + 1) cur rm =
+      (om :: (setLoopWith ext recSet data n c2 true).1, (setLoopWith ext recSet data n c2 true).2) := by
+  conv => lhs; unfold setLoopWith
+  have hn : ¬ ¬ (cur < (data.length : Int)) := by omega
+  rw [if_neg hn]
+  simp only [fmt_decode_message_set_iter_0]
+  rw [h1]; simp only; rw [h2]; simp only; rw [h3]
+  simp only [List.isEmpty_cons, Bool.not_false, Bool.or_true, List.cons_append, List.nil_append]
+
+/-- every entry of the grammar's message set has at least the 12 bytes of offset and size -/
+theorem entry_enc (crc : Bytes → Nat) (e : Int × Spec.Msg) :
+    (Spec.entry crc).enc e = ofIntBE 8 e.1 ++ Codec.bytes.enc ((Spec.message crc).enc e.2) := rfl
+
+theorem entry_valid {crc : Bytes → Nat} {e : Int × Spec.Msg} (h : (Spec.entry crc).valid e = true) :
+    IntFits 8 e.1 ∧ (Spec.message crc).valid e.2 = true ∧ Codec.bytes.valid ((Spec.message crc).enc e.2) = true := by
+  have h1 := seq_valid h
+  have h2 := sized32_valid h1.2
+  refine ⟨v64 h1.1, h2.1, ?_⟩
+  exact (intFitsB_iff _ _).mpr h2.2
+
+/-- the loop over the rest of a set of plain messages -/
+theorem setLoop_entries (ext : Ext) (recSet : Bytes → Gen) (data : Bytes) :
+    ∀ (entries : List (Int × Spec.Msg)) (pre : Bytes) (n : Nat) (rm : Bool), entries.length ≤ n →
+      (∀ e ∈ entries, (Spec.entry ext.crc).valid e = true ∧ e.2.attributes % 4 = 0) →
+      data = pre ++ encAll (Spec.entry ext.crc) entries →
+      setLoopWith ext recSet data n pre.length rm = (entries.map (fun e => ⟨e.1, toMessage e.2⟩), none) := by
+  intro entries
+  induction entries with
+  | nil =>
+    intro pre n rm _ _ hd
+    have : data = pre := by rw [hd]; simp [encAll]
+    rw [← this]
+    exact setLoop_end ext recSet data n rm
+  | cons e es ih =>
+    intro pre n rm hn hv hd
+    obtain ⟨off, m⟩ := e
+    have he := hv (off, m) List.mem_cons_self
+    have hev := entry_valid he.1
+    cases n with
+    | zero => simp at hn
+    | succ n =>
+      have hn' : es.length ≤ n := by simpa using hn
+      have hq : packedBody ['q'] [off] = ofIntBE 8 off := by simp only [packedBody, widthOf, fieldSpec, List.append_nil]
+      have hd1 : data = pre ++ packedBody ['q'] [off] ++
+          (Codec.bytes.enc ((Spec.message ext.crc).enc m) ++ encAll (Spec.entry ext.crc) es) := by
+        rw [hd, hq]; simp only [encAll, entry_enc, List.append_assoc]
+      have hd2 : data = (pre ++ packedBody ['q'] [off]) ++ Codec.bytes.enc ((Spec.message ext.crc).enc m) ++
+          encAll (Spec.entry ext.crc) es := by
+        rw [hd1]; simp only [List.append_assoc]
+      have hlt : (pre.length : Int) < (data.length : Int) := by
+        rw [hd1]
+        simp only [List.length_append, hq, ofIntBE_length]
+        omega
+      have step := setLoop_step (ext := ext) (recSet := recSet) (n := n) (rm := rm) hlt
+        (relativeUnpack_at ['q'] [off] (data := data) ⟨ok_q hev.1, trivial⟩ hd1)
+        (ris_bytes_at (data := data) hd2 hev.2.2)
+        (message_roundtrip ext recSet off m hev.2.1 he.2)
+      rw [step]
+      have hd3 : data = (pre ++ packedBody ['q'] [off] ++ Codec.bytes.enc ((Spec.message ext.crc).enc m)) ++
+          encAll (Spec.entry ext.crc) es := hd2
+      have r := ih (pre ++ packedBody ['q'] [off] ++ Codec.bytes.enc ((Spec.message ext.crc).enc m)) n true hn'
+        (fun x hx => hv x (List.mem_cons_of_mem _ hx)) hd3
+      rw [r]
+      rfl
+
+/-- **Message-set round trip**: a set of plain messages (either format, null / empty keys and
+    values, any offsets and timestamps) encoded by the grammar decodes to exactly its entries, and
+    the iteration then ends normally. -/
+theorem msgset_roundtrip (ext : Ext) (depth : Nat) (entries : List (Int × Spec.Msg))
+    (hv : (Spec.messageSet ext.crc).valid entries = true) (hplain : entries.all (fun e => e.2.attributes % 4 = 0) = true) :
+    decodeMessageSet ext (depth + 1) ((Spec.messageSet ext.crc).enc entries) =
+      (entries.map (fun e => ⟨e.1, toMessage e.2⟩), none) := by
+  have hvalid := many_valid hv
+  have hpl := List.all_eq_true.mp hplain
+  have henc : (Spec.messageSet ext.crc).enc entries = encAll (Spec.entry ext.crc) entries := rfl
+  rw [henc]
+  generalize hdat : encAll (Spec.entry ext.crc) entries = data
+  unfold decodeMessageSet
+  have hlen : entries.length ≤ data.length + 1 := by
+    have : entries.length ≤ (encAll (Spec.entry ext.crc) entries).length := by
+      apply encAll_length_ge
+      intro a _ hnil
+      have := congrArg List.length hnil
+      rw [entry_enc] at this
+      simp [List.length_append, ofIntBE_length] at this
+    rw [hdat] at this
+    omega
+  have := setLoop_entries ext (decodeMessageSet ext depth) data entries [] (data.length + 1) false hlen
+    (fun e he => ⟨hvalid e he, by simpa using hpl e he⟩) (by rw [← hdat]; rfl)
+  simpa using this
 
 end Afkak.Wire
